@@ -963,7 +963,21 @@ func callBuiltin(caller *frame, callpos token.Pos, fn *ssa.Builtin, args []value
 			return arg0
 		}
 		// append([]T, ...[]T) []T
-		return append(args[0].([]value), args[1].([]value)...)
+		res := append(args[0].([]value), args[1].([]value)...)
+		// gosym: the spare capacity must hold zero values (code may re-slice into it)
+		if cap(res) > len(res) {
+			full := res[:cap(res)]
+			if full[len(full)-1] == nil {
+				if sl, ok := fn.Type().(*types.Signature).Params().At(0).Type().Underlying().(*types.Slice); ok {
+					for k := len(res); k < len(full); k++ {
+						if full[k] == nil {
+							full[k] = zero(sl.Elem())
+						}
+					}
+				}
+			}
+		}
+		return res
 
 	case "copy": // copy([]T, []T) int or copy([]byte, string) int
 		src := args[1]
